@@ -473,7 +473,7 @@ def pick_combos(ctx):
 
 def run(ctx):
     combos = pick_combos(ctx)
-    cfgs = ["dbg", "rel"]
+    cfgs = ["dbg", "rel", "isa"]      # isa: code guarded by __FMA__ / __AVX2__ / __SSE4_1__ is compiled and run (contraction stays off)
     failed = build(ctx.work, combos, cfgs)
     nfields, npts = (4, 120) if ctx.quick else (20, 1000)
     tasks = []
@@ -497,7 +497,7 @@ def run(ctx):
     corr = merge(corr, outs)
     corr.info["type_combinations"] = len(combos) - len(failed)
     corr.info["points_per_combination"] = nfields * npts
-    run_corpus(ctx, corr, cfgs)
+    run_corpus(ctx, corr, ["dbg", "rel"])
     return corr
 
 
